@@ -144,6 +144,9 @@ fn envelopes() -> Vec<Envelope> {
         Envelope::new(dcbor::CBOR::to_tagged_value(12345u64, "unknown tag")),
         Envelope::new(dcbor::CBOR::to_tagged_value(40001u64, "not a digest")),
     ];
+    // LAST-BUT-ONE: a leaf whose date summarizer panics inside dcbor (known finding D14); operations on it
+    // may panic, but nothing else may be affected by that afterwards
+    v.push(Envelope::new("event").add_assertion("when", Envelope::new(dcbor::CBOR::to_tagged_value(1u64, 1.0e300))));
     v.push(Envelope::new("many").add_assertion(known_values::DATE, date).add_assertion(known_values::ID, id).add_assertion(functions::MUL, parameters::BLANK));
     v
 }
@@ -256,7 +259,10 @@ fn reference(k: usize, out: &str) {
     let mut s = String::new();
     for op in OPS.iter().filter(|o| **o != "register_tags" && !o.ends_with("_guard_format")) {
         for (i, e) in envs.iter().enumerate() {
-            let text = run_op(op, e, i);
+            let text = match std::panic::catch_unwind(std::panic::AssertUnwindSafe(|| run_op(op, e, i))) {
+                Ok(t) => t,
+                Err(_) => "<<PANIC>>".to_string(),
+            };
             s.push_str(&format!("R {} {} {:016x} {}\n", op, i, fnv(text.as_bytes()), text.replace('\n', "\\n").chars().take(160).collect::<String>()));
         }
     }
@@ -275,6 +281,9 @@ struct Ev {
 
 fn main() {
     let args: Vec<String> = std::env::args().collect();
+    if args.iter().any(|a| a == "--reference") {
+        std::panic::set_hook(Box::new(|_| {}));
+    }
     if let Some(k) = arg(&args, "--reference") {
         reference(k.parse().unwrap(), &arg(&args, "--out").unwrap());
         return;
